@@ -3,8 +3,6 @@ package fixtures
 import (
 	"fmt"
 	"strings"
-
-	"github.com/alecthomas/participle/v2"
 )
 
 // Not ported: a harness-owned grammar whose capture targets are the unusual field types no example uses --
@@ -31,7 +29,7 @@ type oddItem struct {
 	On     oddFlag    `       @"on"? ) ";"`
 }
 
-var oddParser = participle.MustBuild[oddDoc]()
+var oddParser = mustBuild[oddDoc]()
 
 func init() {
 	f := Register("oddfields", oddParser, nil,
